@@ -23,6 +23,8 @@ package internals
 //@ func (*ExecCtx).NewSchemaCtx(c, val, destPtr, path, dtype)
 //@   fresh
 //@   modifies nothing
+//@   ghost_update NP(result) := 0
+//@   ensures NP(result) == 0
 //@   ensures[C07,C12] exec: result.ExecCtx == c
 //@   ensures[C07] data: result.Data == val
 //@   ensures[C07] valptr: result.ValPtr == destPtr
@@ -35,6 +37,8 @@ package internals
 //@ func (*ExecCtx).NewValidateSchemaCtx(c, valPtr, path, dtype)
 //@   fresh
 //@   modifies nothing
+//@   ghost_update NP(result) := 0
+//@   ensures NP(result) == 0
 //@   ensures[C07,C12] exec: result.ExecCtx == c
 //@   ensures[C07] data: result.Data == nil
 //@   ensures[C07] valptr: result.ValPtr == valPtr
@@ -75,10 +79,17 @@ package internals
 //@ smt (assert (forall ((l Log) (x Ptr)) (! (= (zz_last (zz_push l x)) x) :pattern ((zz_push l x)))))
 // Ghost counters: TR(c) = number of test functions invoked so far with schema context c (a node's own tests);
 // nproc = number of schema-node process/validate invocations so far.
+// IARR marks backing arrays that belong to zog's own bookkeeping (user callbacks never write them).
+//@ ghost IARR(Ptr) Bool
 //@ ghost TR(Ptr) Int
 //@ ghost nproc Int
+// NP(c) = number of schema-node invocations made with context c (a composite node's direct children share one
+// child context); LASTDATA/LASTVAL(c) = the data and destination handed to the most recent one.
+//@ ghost NP(Ptr) Int
+//@ ghost LASTDATA(Ptr) Iface
+//@ ghost LASTVAL(Ptr) Iface
 //@ spec LC(c) = L(c.ExecCtx.Errors)
-//@ spec listrep(l, g) = ((l == nil) <==> (g == empty())) && len(l) == loglen(g) && (len(l) > 0 ==> l[len(l)-1] == last(g))
+//@ spec listrep(l, g) = ((l == nil) <==> (g == empty())) && len(l) == loglen(g) && (len(l) > 0 ==> l[len(l)-1] == last(g) && IARR(arrbase(l)))
 //@ spec zrep(s) = (istype(s, *ErrsList) ==> listrep(s.(*ErrsList).List, L(s))) && (istype(s, *ErrsMap) ==> ((s.(*ErrsMap).M == nil) <==> (L(s) == empty())))
 //@ spec iscontainer(s) = (istype(s, *ErrsList) && s.(*ErrsList) != nil) || (istype(s, *ErrsMap) && s.(*ErrsMap) != nil)
 //@ spec wfexec(x) = x != nil && x.Fmter != nil && iscontainer(x.Errors) && zrep(x.Errors)
@@ -99,8 +110,6 @@ package internals
 //@ smt (assert (= (zz_prender zz_pempty) ""))
 //@ ghost PSEQ(Ptr) PathSeq
 // Concrete shape of a path builder between balanced Push/Pop pairs: at least the root segment, which is "".
-// IARR marks backing arrays that belong to zog's own bookkeeping (user callbacks never write them).
-//@ ghost IARR(Ptr) Bool
 //@ spec pathwf(p) = p != nil && len(*p) >= 1 && (*p)[0] == "" && IARR(arrbase(*p))
 
 // ---- function-type contracts (assumed for user callbacks, proved for zog's own closures)
@@ -161,6 +170,7 @@ package internals
 //@   implements iface ZogIssues.Add
 //@   requires e != nil
 //@   modifies e.List, anyelems(Ptr), L(box(e))
+//@   ghost_update IARR(arrbase(e.List)) := true
 //@   ensures[C02,C10] appended: len(e.List) == old(len(e.List)) + 1 && e.List[len(e.List)-1] == err
 //@   ensures[C02] nonnil: e.List != nil
 
